@@ -950,10 +950,28 @@ def own_compose(ctx: Ctx) -> RuleResult:
     # the node table of the composed DAG: deep copies / fresh nodes only
     xd = [n for n in iter_own_nodes(f.node) if isinstance(n, ast.Assign) and isinstance(n.value, ast.Call)
           and dotted(n.value.func) == "StrictDict" and any("exec_nodes" in norm_src(x) for x in ast.walk(n.value))]
-    r.require(len(xd) == 1, "compose: construction of the copied node table not found")
-    tbl = dotted(xd[0].targets[0])
-    gen = xd[0].value.args[0]
-    val = gen.elt.elts[1] if isinstance(gen, ast.GeneratorExp) and isinstance(gen.elt, ast.Tuple) else None
+    loop_form = None
+    if not xd:
+        # loop form: `tbl = StrictDict()`; `for id in ..: [if id in inputs: continue]; c = deepcopy(self.exec_nodes[id]); ..; tbl[id] = c`
+        ctor_tbl = {dotted(k.value) for n in iter_own_nodes(f.node) if isinstance(n, ast.Call) and dotted(n.func) in ("DAG", "AsyncDAG")
+                    for k in n.keywords if k.arg == "exec_nodes"}
+        for n in iter_own_nodes(f.node):
+            if isinstance(n, ast.Assign) and isinstance(n.targets[0], ast.Subscript) and dotted(n.targets[0].value) in ctor_tbl \
+                    and isinstance(n.value, ast.Name):
+                lps = [lp for lp in iter_own_nodes(f.node) if isinstance(lp, ast.For) and any(x is n for x in ast.walk(lp))]
+                defs_ = [d for d in (own_walk(lps[-1]) if lps else []) if isinstance(d, ast.Assign) and dotted(d.targets[0]) == n.value.id]
+                if lps and len(defs_) == 1 and any("exec_nodes" in norm_src(x) for x in ast.walk(lps[-1])):
+                    loop_form = (n, defs_[0])
+    r.require(len(xd) == 1 or loop_form is not None, "compose: construction of the copied node table not found")
+    if loop_form is not None:
+        xd = [loop_form[0]]
+        tbl = dotted(loop_form[0].targets[0].value)
+        val = loop_form[1].value
+        # the copied value may be a local bound to the original node (`original = self.exec_nodes[id]; copy = deepcopy(original)`)
+    else:
+        tbl = dotted(xd[0].targets[0])
+        gen = xd[0].value.args[0]
+        val = gen.elt.elts[1] if isinstance(gen, ast.GeneratorExp) and isinstance(gen.elt, ast.Tuple) else None
     def _deep(e: Optional[ast.AST]) -> Optional[bool]:
         """True: a deep copy; False: recognisably shared / shallow; None: cannot tell."""
         if isinstance(e, ast.Call) and dotted(e.func) == "deepcopy":
